@@ -219,6 +219,9 @@ func valueClass(v []byte) string {
 		return "NUL"
 	case strings.IndexFunc(s, func(r rune) bool { return r < 32 || r == 127 }) >= 0:
 		return "control"
+	case strings.HasPrefix(s, "=?") && strings.HasSuffix(s, "?=") && strings.IndexFunc(s, func(r rune) bool { return r >= 128 }) < 0:
+		// printable ASCII that as a whole looks like an encoded-word (whatever else it contains)
+		return "encoded-word-lookalike"
 	case strings.Contains(s, `\`):
 		return "backslash"
 	case strings.Contains(s, `"`):
@@ -437,7 +440,10 @@ func c02ExecOne(r *vf.Run, k c02Case) []finding {
 	// value round trip
 	want := normWS(string(k.Value))
 	chk := func(where, got string, err error, wantS string) {
-		if err != nil {
+		if err != nil && vc == "encoded-word-lookalike" {
+			// the caller's text was emitted as is and is a (broken) encoded-word to a reader: the look-alike finding
+			add(fmt.Sprintf("value-altered/%s/%s", sname, vc), "%s does not decode (%v), the caller set %q", where, err, wantS)
+		} else if err != nil {
 			add(fmt.Sprintf("undecodable/%s/%s", sname, vc), "%s: %v", where, err)
 		} else if normWS(got) != wantS {
 			add(fmt.Sprintf("value-altered/%s/%s", sname, vc), "%s decodes to %q, the caller set %q", where, normWS(got), wantS)
@@ -576,6 +582,14 @@ func c02Values(thorough bool) [][]byte {
 	for _, n := range []int{0, 1, 74, 75, 76, 77, 78, 79, 200, 1000} {
 		vs = append(vs, []byte(repeatTo("x", n)), []byte(repeatTo("word ", n)), []byte(repeatTo("ü", n)))
 	}
+	// values that as a whole look like ONE encoded-word (so that a lenient decoder would call them "already
+	// encoded") with the dangerous symbols inside the wrapper
+	for _, x := range c02Symbols {
+		for _, y := range c02Symbols {
+			vs = append(vs, []byte("=?utf-8?q?a"+x+y+"b?="), []byte("=?us-ascii?B?a"+x+y+"b?="))
+		}
+	}
+	vs = append(vs, []byte("=?utf-8?q?hello\r\nX-Injected: yes\r\nX-Rest: ?="), []byte("=?iso-8859-1?q?x\r\n\r\ninjected body?="), []byte("=?utf-8?b?eA==\r\nBcc: evil@example.com\r\nX: ?="))
 	// runs of blanks: alone, and between words that fill a line (folding decisions around empty "words")
 	for _, k := range []int{2, 3, 10, 60, 70, 71, 72, 73, 74, 75, 76, 77, 78, 79, 80, 150, 300} {
 		sp := strings.Repeat(" ", k)
@@ -601,7 +615,7 @@ func init() {
 	vf.Register(&vf.Check{
 		ID: "C02", Title: "no caller-supplied text can alter the header block",
 		Run: func(r *vf.Run) {
-			r.SetRule("16 text-accepting setters (subject, generic header, From/To/Cc/Reply-To and Disposition-Notification-To display names, message-id, organisation, user-agent, attachment and embed file names, file and part descriptions, content-id) × values {every byte 0..255 at start/middle/end of a carrier; all 2-grams (thorough: 3-grams) over 16 dangerous symbols CR LF NUL TAB SP \" \\ < > : ; = ? 0x80 0xFF ü; lengths 0,1,74..79,200,1000; classic injection payloads} × header encoder {Q,B} × shape {single part, alternative, mixed+related}, alone, (2-grams) in pairs of setters, and — for the file and part attributes — applied to the existing File / Part objects after a first rendering (second rendering judged); oracle is differential: every header section must have exactly the field names of the same message built with a benign value, bodies unchanged, and the value must decode back (RFC 2047, WSP-normalised; file names after the documented '_' replacement) unless the setter returned an error; distinct by case tuple")
+			r.SetRule("16 text-accepting setters (subject, generic header, From/To/Cc/Reply-To and Disposition-Notification-To display names, message-id, organisation, user-agent, attachment and embed file names, file and part descriptions, content-id) × values {every byte 0..255 at start/middle/end of a carrier; all 2-grams (thorough: 3-grams) over 16 dangerous symbols CR LF NUL TAB SP \" \\ < > : ; = ? 0x80 0xFF ü; lengths 0,1,74..79,200,1000; classic injection payloads; values that as a whole look like one RFC 2047 encoded-word with every 2-gram of the symbols inside the wrapper} × header encoder {Q,B} × shape {single part, alternative, mixed+related}, alone, (2-grams) in pairs of setters, and — for the file and part attributes — applied to the existing File / Part objects after a first rendering (second rendering judged); oracle is differential: every header section must have exactly the field names of the same message built with a benign value, bodies unchanged, and the value must decode back (RFC 2047, WSP-normalised; file names after the documented '_' replacement) unless the setter returned an error; distinct by case tuple")
 			r.Assume("*Preformatted setters are raw by contract and excluded", "header names, content types and charsets are typed constants, not free text",
 				"message-id / content-id values are only compared when they are printable ASCII without blanks and angle brackets")
 			vals := c02Values(r.Thorough)
